@@ -474,6 +474,10 @@ def main(tier):
     # ---- telingo traces: one heading per state, in order, with the sentences of that state --------------
     tjobs = [gen_wide.gen_temporal_spec(rng).text() for _ in range(8 if tier == 'quick' else 80)]
     tjobs += [trace_spec(rng) for _ in range(10 if tier == 'quick' else 60)]
+    # quoted values with blanks, and a value that contains the word of the state headings
+    tjobs += ['A place is identified by a name.\nThe following propositions always apply:\n'
+              f'There is a place with name equal to "{v}".\nThere is a place with name equal to "{w}".\n'
+              for v, w in (('State Street', 'new york'), ('a b c', 'State'), ('north State 1', 'x'))]
     tjobs += [(trace_spec(rng), (h,)) for h in ((12,) if tier == 'quick' else (10, 11, 12, 13, 21))]     # long traces: two-digit state numbers
     ntr = 0
     for r in rt.pmap(_tel_job, tjobs, chunksize=1):
